@@ -1,13 +1,250 @@
 /-
-  Driver command `sim`: see DESIGN.md.
+  Driver command `sim`: replay every run of a simulator case through the model with the logged
+  oracle, compare the event lists exactly, print the coverage signature and run the property
+  monitors on the implementation's traces.
 -/
-import Driver.Parse
+import Driver.FwRun
+import Driver.SimMonitors
 
 namespace Driver.SimRun
-open Mb Driver
+open Mb Mb.Sim Driver
 
-/-- run the `sim` command over the parsed case blocks; `args` are the extra command-line words -/
-def run (_cases : List CaseBlock) (_args : List String) : IO Unit := do
-  IO.println "sim: not implemented"
+def parseMachineHex (h : String) : Except String Machine :=
+  match hexBytes h with
+  | some bs => match Codec.decodeMachine bs with
+    | some m => pure m
+    | none => throw "machine bytes do not decode in the model"
+  | none => throw "bad hex"
+
+def parseTraceItem (w : String) : Option TraceLine :=
+  match w.splitOn ":" with
+  | [t, "s"] => t.toNat?.map (·, true)
+  | [t, "r"] => t.toNat?.map (·, false)
+  | _ => none
+
+def parseOptNat (s : String) : Option (Option Nat) :=
+  if s == "-" then some none else s.toNat?.map some
+
+def parseF64 (s : String) : Option F64 := (hexNat s).map UInt64.ofNat
+
+def parseRunLine (ws : List String) : Option RunIn :=
+  match ws with
+  | ["run", name, api, pps, mtl, msi, cont, oc, on, fpc, fbc, fps, fbs, seed] => do
+    let pps ← parseOptNat pps
+    let seed ← parseOptNat seed
+    some { name := name, adv := api == "adv", pps := pps, seed := seed,
+           args := { network := ⟨0, pps⟩, maxTraceLength := ← mtl.toNat?, maxSimIterations := ← msi.toNat?,
+                     continueAfterAllNormal := ← parseBool cont, onlyClientEvents := ← parseBool oc,
+                     onlyNetworkActivity := ← parseBool on, fpClient := ← parseF64 fpc, fbClient := ← parseF64 fbc,
+                     fpServer := ← parseF64 fps, fbServer := ← parseF64 fbs } }
+  | _ => none
+
+def parseObsEvent (ws : List String) : Option SimEvent :=
+  match ws with
+  | [t, side, ev, pad, b, r] => do
+    some { event := ← parseEv ev, time := ← t.toInt?, client := side == "c",
+           containsPadding := ← parseBool pad, bypass := ← parseBool b, replace := ← parseBool r }
+  | _ => none
+
+def parseRes (outs : List (List String)) : Option RunRes :=
+  match outs with
+  | ("res" :: "ok" :: _) :: evs => (evs.mapM parseObsEvent).map .ok
+  | ("res" :: "panic" :: cls) :: _ => some (.panic (String.intercalate " " cls))
+  | _ => none
+
+structure ParsedCase where
+  input : CaseIn
+  runs : List (ObsRun × OState)
+
+def parseCase (c : CaseBlock) : Except String ParsedCase := do
+  let mut mc : List Machine := []
+  let mut ms : List Machine := []
+  let mut trace : List TraceLine := []
+  let mut delay : Nat := 0
+  for ws in c.header do
+    match ws with
+    | ["mc", h] => mc := mc ++ [← parseMachineHex h]
+    | ["ms", h] => ms := ms ++ [← parseMachineHex h]
+    | "tr" :: _ :: items =>
+      match items.mapM parseTraceItem with
+      | some t => trace := t
+      | none => throw "bad trace"
+    | ["delay", d] =>
+      match d.toNat? with
+      | some d => delay := d
+      | none => throw "bad delay"
+    | _ => throw s!"unexpected header line {ws}"
+  let mut runs : List (ObsRun × OState) := []
+  for op in c.ops do
+    let some r := parseRunLine op.cmd | throw "bad run line"
+    let some res := parseRes op.outs | throw "bad result lines"
+    runs := runs ++ [(⟨r, res⟩, { us := op.us, ds := op.ds, starved := false })]
+  return { input := { mc := mc, ms := ms, trace := trace, delay := delay }, runs := runs }
+
+/-- first index where two lists differ -/
+def firstDiff {α} [BEq α] : List α → List α → Nat → Option Nat
+  | [], [], _ => none
+  | a :: as, b :: bs, i => if a == b then firstDiff as bs (i + 1) else some i
+  | _, _, i => some i
+
+/-- compare an implementation result with the model's -/
+def diffRes (impl model : RunRes) : Option (String × Nat) :=
+  match impl, model with
+  | .ok a, .ok b =>
+    match firstDiff a b 0 with
+    | none => none
+    | some i => some (if a.length != b.length && i ≥ min a.length b.length then "len" else "events", i)
+  | .panic a, .panic b => if a == b then none else some (s!"panic:{a}/{b}", 0)
+  | .panic a, .ok _ => some (s!"impl-panic:{a}", 0)
+  | .ok _, .panic b => some (s!"model-fault:{b}", 0)
+
+def modelBudget : Nat := 4000
+
+/-- per-property projections of a trace: a disagreement between model and implementation is
+    attributed to the properties whose projection differs -/
+def projections : List (String × (SimEvent → Bool)) :=
+  [ ("C15", fun e => e.event == .tunnelSent || e.event == .tunnelRecv),
+    ("C16", fun e => e.event == .tunnelSent || e.event == .blockingEnd || (match e.event with | .blockingBegin _ => true | _ => false)),
+    ("C17", fun e => match e.event with | .paddingSent _ => true | .blockingBegin _ => true | _ => false),
+    ("C18", fun e => match e.event with | .timerBegin _ => true | .timerEnd _ => true | _ => false),
+    ("C19", fun _ => true) ]
+
+def diffProj (noMachines : Bool) (impl model : RunRes) : List String :=
+  match impl, model with
+  | .ok a, .ok b =>
+    (projections.filterMap fun (pid, f) => if a.filter f != b.filter f then some pid else none)
+      ++ (if noMachines && a != b then ["C14"] else [])
+  | _, _ => if impl != model then (if noMachines then ["C14"] else []) ++ ["C15", "C16", "C17", "C18", "C19"] else []
+
+/-- coverage features of one run (model internals + the implementation's trace) -/
+def runSig (r : ObsRun) (o : SimOut OState) : List String :=
+  let f (b : Bool) (s : String) : List String := if b then [s] else []
+  let evs := o.stream.map (·.ev)
+  let acts := o.stream.flatMap (·.acts)
+  let g := match o.final with
+    | some st => st.net.ghost
+    | none => {}
+  f (evs.any fun e => match e.event with | .paddingSent _ => true | _ => false) "pad" ++
+  f (evs.any fun e => match e.event with | .blockingBegin _ => true | _ => false) "blk" ++
+  f (evs.any fun e => e.event == .blockingEnd) "blkend" ++
+  f (evs.any fun e => e.event == .tunnelSent && e.bypass) "bypass" ++
+  f (evs.any fun e => match e.event with | .paddingSent _ => e.replace | _ => false) "replace" ++
+  f (g.replaced > 0) "repl-hit" ++ f (g.replacedBypass > 0) "repl-bypass-hit" ++
+  f (evs.any fun e => match e.event with | .timerBegin _ => true | _ => false) "timer" ++
+  f (evs.any fun e => match e.event with | .timerEnd _ => true | _ => false) "timerend" ++
+  f (acts.any fun a => match a with | .cancel _ .action => true | _ => false) "cancelA" ++
+  f (acts.any fun a => match a with | .cancel _ .internal => true | _ => false) "cancelI" ++
+  f (acts.any fun a => match a with | .cancel _ .all => true | _ => false) "cancelL" ++
+  f (acts.any fun a => match a with | .updateTimer _ true _ => true | _ => false) "timerR" ++
+  f (acts.any fun a => match a with | .updateTimer 0 _ _ => true | _ => false) "timer0" ++
+  f (acts.any fun a => match a with | .blockOutgoing _ 0 _ _ _ => true | _ => false) "blk0" ++
+  f (acts.any fun a => match a with | .blockOutgoing _ _ _ true _ => true | _ => false) "blkR" ++
+  f (acts.any fun a => match a with | .blockOutgoing _ _ true _ _ => true | _ => false) "blkB" ++
+  f (g.aggPushed > 0) "agg" ++ f (g.aggPopped > 0) "aggpop" ++ f (g.ppsHit > 0) "pps" ++
+  f (g.movedByBlocking > 0) "moved" ++
+  f (o.stop == .maxTrace) "stopLen" ++ f (o.stop == .maxIter) "stopIter" ++ f (o.stop == .noNormal) "stopNormal" ++
+  f (o.stop == .queueEmpty) "stopEmpty" ++
+  f (match o.stop with | .fault _ => true | _ => false) "panic" ++
+  f r.run.args.onlyClientEvents "fC" ++ f r.run.args.onlyNetworkActivity "fN" ++
+  f (!r.run.adv) "apiSim"
+
+/-- features of the input trace (shape of the workload) -/
+def traceSig (c : CaseIn) : List String :=
+  let f (b : Bool) (s : String) : List String := if b then [s] else []
+  let ts := c.trace.map (·.1)
+  let pairs := c.trace.zip (c.trace.drop 1)
+  let n := c.trace.length
+  f (n == 1) "n1" ++ f (n ≥ 2 && n ≤ 10) "nS" ++ f (n > 10 && n ≤ 30) "nM" ++ f (n > 30) "nL" ++
+  f (pairs.any fun (a, b) => a.1 == b.1 && a.2 == b.2) "burst" ++
+  f (pairs.any fun (a, b) => a.1 == b.1 && a.2 != b.2) "bothdir" ++
+  f (pairs.any fun (a, b) => b.1 - a.1 ≥ 1000000000) "gap1s" ++
+  f (pairs.any fun (a, b) => b.1 - a.1 > 0 && b.1 - a.1 ≤ 1000000) "gapSub1ms" ++
+  f (ts.head?.getD 0 > 0) "t0pos" ++
+  f (c.trace.all (·.2)) "onlyS" ++ f (c.trace.all (!·.2)) "onlyR" ++
+  [s!"d{c.delay}"]
+
+def dedup (l : List String) : List String :=
+  l.foldl (fun acc s => if acc.contains s then acc else acc ++ [s]) []
+
+def evStr (e : SimEvent) : String :=
+  let k := match e.event with
+    | .normalRecv => "nr" | .paddingRecv => "pr" | .tunnelRecv => "tr" | .normalSent => "ns"
+    | .paddingSent m => s!"ps:{m}" | .tunnelSent => "ts" | .blockingBegin m => s!"bb:{m}"
+    | .blockingEnd => "be" | .timerBegin m => s!"tb:{m}" | .timerEnd m => s!"te:{m}"
+  s!"{e.time} {if e.client then "c" else "s"} {k} {if e.containsPadding then 1 else 0} {if e.bypass then 1 else 0} {if e.replace then 1 else 0}"
+
+def actStr : TAction → String
+  | .cancel m t => s!"Cancel(m{m},{repr t})"
+  | .sendPadding to b r m => s!"Pad(m{m},to={to}us,b={b},r={r})"
+  | .blockOutgoing to d b r m => s!"Block(m{m},to={to}us,dur={d}us,b={b},r={r})"
+  | .updateTimer d r m => s!"Timer(m{m},dur={d}us,r={r})"
+
+def run (cases : List CaseBlock) (args : List String) : IO Unit := do
+  for c in cases do
+    match parseCase c with
+    | .error e => IO.println s!"case {c.id} {c.kind} PARSE {e}"
+    | .ok p =>
+      let mut diffs : List String := []
+      let mut projs : List String := []
+      let noMachines := p.input.mc.isEmpty && p.input.ms.isEmpty
+      let mut sigs : List String := [s!"c{p.input.mc.length}s{p.input.ms.length}"] ++ traceSig p.input
+      let mut nev := 0
+      let mut models : List (ObsRun × SimOut OState × Int) := []
+      if args.contains "machines" then
+        for (m, i) in p.input.mc.zipIdx do
+          IO.println s!"client machine {i}: {repr m}"
+        for (m, i) in p.input.ms.zipIdx do
+          IO.println s!"server machine {i}: {repr m}"
+      for (r, orc) in p.runs do
+        let (o, t0) := Mb.Sim.modelRun replayOracle modelBudget p.input r.run orc
+        let mres := o.res t0
+        match diffRes r.res mres with
+        | some (what, i) =>
+          diffs := diffs ++ [s!"{r.run.name}:{what} first={i}"]
+          projs := projs ++ diffProj noMachines r.res mres
+        | none =>
+          -- the oracle must be consumed exactly (only meaningful when the run completed)
+          match o.final with
+          | some st =>
+            if st.orc.starved || !st.orc.us.isEmpty || !st.orc.ds.isEmpty then
+              diffs := diffs ++ [s!"{r.run.name}:oracle first=0"]
+              projs := projs ++ ["C15", "C16", "C17", "C18", "C19"]
+          | none => pure ()
+        sigs := sigs ++ runSig r o
+        match args.dropWhile (· != "state") with
+        | _ :: k :: _ =>
+          if r.run.name == "u" then
+            let k := k.toNat!
+            let r' : RunIn := { r.run with args := { r.run.args with maxSimIterations := k } }
+            let (o', _) := Mb.Sim.modelRun replayOracle modelBudget p.input r' orc
+            match o'.final with
+            | some st =>
+              let showSide (sd : Side OState) : String :=
+                s!"acts={sd.schedAction.map (fun x => x.map (fun a => (actStr a.action, a.time - t0)))} timers={sd.schedTimer.map (fun x => x.map (· - t0))} until={sd.blockingUntil.map (· - t0)} byp={sd.blockingBypassable}"
+              IO.println s!"state after {k} iterations: now={st.now - t0}"
+              IO.println s!"  client {showSide st.client}"
+              IO.println s!"  server {showSide st.server}"
+              IO.println s!"  server internal={st.sq.server.internal.data.map (fun e => evStr (SimEvent.shift t0 e))}"
+              IO.println s!"  server blocking={st.sq.server.blocking.data.map (fun e => evStr (SimEvent.shift t0 e))}"
+              IO.println s!"  server bypassable={st.sq.server.bypassable.data.map (fun e => evStr (SimEvent.shift t0 e))}"
+              IO.println s!"  server base={st.sq.server.base.data.map (fun e => evStr (SimEvent.shift t0 e))}"
+              IO.println s!"  client internal={st.sq.client.internal.data.map (fun e => evStr (SimEvent.shift t0 e))}"
+              IO.println s!"  agg c={st.net.clientAgg} s={st.net.serverAgg} pendingAgg={st.net.aggQueue.data.map (fun a => (a.time - t0, a.delay, a.client))}"
+              IO.println s!"  pickDecide={repr (pickDecide st)}"
+            | none => pure ()
+        | _ => pure ()
+        if args.contains "dump" then
+          IO.println s!"dump {c.id} run {r.run.name} stop={repr o.stop}"
+          for x in o.stream do
+            IO.println s!"  {evStr (SimEvent.shift t0 x.ev)} net={x.net} {String.intercalate " " (x.acts.map actStr)}"
+        nev := nev + (match r.res with | .ok t => t.length | _ => 0)
+        models := models ++ [(r, o, t0)]
+      if diffs.isEmpty then
+        IO.println s!"case {c.id} {c.kind} ok runs={p.runs.length} events={nev}"
+      else
+        IO.println s!"case {c.id} {c.kind} DIFF proj={String.intercalate "," (dedup projs)} {String.intercalate " ; " diffs}"
+      IO.println s!"sig {c.id} {String.intercalate "," (dedup sigs)}"
+      for (pid, msg) in simMonitors p.input (p.runs.map (·.1)) (p.runs.map (·.2)) do
+        IO.println s!"mon {pid} FAIL {c.id} {msg}"
 
 end Driver.SimRun
